@@ -252,7 +252,7 @@ def tpl_shape(p: Poly, hole: Callable[[Poly], str] = lambda h: "{" + show(h) + "
 
 def is_stringy(p: Poly) -> bool:
     a = single_atom(p)
-    return a is not None and a[0] in ("str", "tpl")
+    return a is not None and a[0] in ("str", "tpl", "join")
 
 
 class PyFlow:
@@ -275,6 +275,9 @@ class PyFlow:
         consts: Optional[Dict[str, ast.AST]] = None,
         unroll: int = 40,
         typed: Optional[Dict[str, Dict[str, ast.FunctionDef]]] = None,
+        stringy_calls: Sequence[str] = (),
+        noreturn: Sequence[str] = (),
+        follow_handlers: bool = False,
     ) -> None:
         self.funcs = dict(funcs or {})
         self.methods = dict(methods or {})
@@ -294,6 +297,9 @@ class PyFlow:
         self.unroll = unroll
         self._const_busy: set = set()
         self.typed = typed or {}  # receiver value (shown) -> methods of its class
+        self.stringy_calls = set(stringy_calls)  # calls known to return str: `+` on their results is concatenation
+        self.noreturn = set(noreturn)  # calls that end the process
+        self.follow_handlers = follow_handlers
 
     # ------------------------------------------------------------------ API
 
@@ -400,9 +406,18 @@ class PyFlow:
         if isinstance(st, (ast.For, ast.While)):
             return self.loop(st, p, depth)
         if isinstance(st, ast.Try):
-            if st.handlers:
+            handler_paths: List[Path] = []
+            if st.handlers and self.follow_handlers:
+                for h in st.handlers:
+                    hp = p.clone()
+                    names = [src_of(h.type)] if h.type is not None and not isinstance(h.type, ast.Tuple) else [src_of(x) for x in getattr(h.type, "elts", [])]
+                    hp.effects.append(Ev("except", ",".join(names) or "BaseException", node=h, sub=[src_of(c.func) for b_ in st.body for c in ast.walk(b_) if isinstance(c, ast.Call)]))
+                    if h.name:
+                        hp.env[h.name] = V(h.name)
+                    handler_paths.extend(self.block(h.body, [hp], depth))
+            elif st.handlers:
                 p.notes.append("try: handlers not followed")
-            paths = self.block(st.body, [p], depth)
+            paths = self.block(st.body, [p], depth) + handler_paths
             paths = self.block(st.orelse, paths, depth) if st.orelse else paths
             if not st.finalbody:
                 return paths
@@ -683,6 +698,10 @@ class PyFlow:
                             sl, sr = str_of(l), str_of(r)
                             if sl is not None and sr is not None:
                                 out.append((q2, (sl == sr) != neg))
+                            elif l.const_value() is not None and r.const_value() is not None:
+                                out.append((q2, (l.const_value() == r.const_value()) != neg))
+                            elif (sl is not None and r.const_value() is not None) or (sr is not None and l.const_value() is not None):
+                                out.append((q2, neg))
                             else:
                                 a, b = sorted([l, r], key=lambda z: repr(z.key()))
                                 kind_ = "is" if isinstance(op, (ast.Is, ast.IsNot)) else "eq"
@@ -811,7 +830,7 @@ class PyFlow:
 
     def binop(self, op: ast.operator, l: Poly, r: Poly, node: ast.AST) -> Poly:
         if isinstance(op, ast.Add):
-            if is_stringy(l) or is_stringy(r):
+            if is_stringy(l) or is_stringy(r) or self._str_call(l) or self._str_call(r):
                 return tpl([l, r])
             return l + r
         if isinstance(op, ast.Sub):
@@ -841,6 +860,10 @@ class PyFlow:
         if isinstance(op, ast.Pow) and l.const_value() == 2:
             return pow2(r)
         return opaque(src_of(node))
+
+    def _str_call(self, v: Poly) -> bool:
+        a = single_atom(v)
+        return a is not None and a[0] in ("call", "mcall") and a[1] in self.stringy_calls
 
     def ev_many(self, es: Sequence[ast.AST], p: Path, depth: int, **kw: Any) -> List[Tuple[Path, List[Poly]]]:
         paths: List[Tuple[Path, List[Poly]]] = [(p, [])]
@@ -931,6 +954,12 @@ class PyFlow:
             return out
         if isinstance(e, (ast.Tuple, ast.List, ast.Set)):
             return [(q, Poly.atom(("tuple", tuple(vals)))) for q, vals in self.ev_many(e.elts, p, depth, no_effect=no_effect)]
+        if isinstance(e, ast.Dict) and all(k is not None for k in e.keys):
+            out = []
+            for q, ks in self.ev_many([k for k in e.keys if k is not None], p, depth, no_effect=no_effect):
+                for q2, vs in self.ev_many(e.values, q, depth, no_effect=no_effect):
+                    out.append((q2, Poly.atom(("dict", tuple(ks), tuple(vs)))))
+            return out
         if isinstance(e, ast.Subscript):
             if src_of(e) in self.names:
                 return [(p, V(self.names[src_of(e)]))]
@@ -955,6 +984,14 @@ class PyFlow:
             for q, it in self.ev(g.iter, p, depth, no_effect=no_effect):
                 rows = self._rows(it)
                 if rows is None:
+                    inner = q.clone()
+                    inner.effects = []
+                    for x in ast.walk(g.target):
+                        if isinstance(x, ast.Name):
+                            inner.env[x.id] = V(x.id)
+                    subs = [r_[0] for r_ in self.ev(e.elt, inner, depth, no_effect=no_effect)]
+                    if any(sp.effects for sp in subs) and not no_effect:
+                        q.effects.append(Ev("loop", "comp", [it], node=e, sub=subs))
                     out.append((q, Poly.atom(("comp", src_of(e.elt), src_of(g.target), it))))
                     continue
                 acc: List[Tuple[Path, List[Poly]]] = [(q, [])]
@@ -1116,6 +1153,34 @@ class PyFlow:
                     else:
                         out.append((q2, Poly.atom(("join", sep, seq))))
             return out
+        if isinstance(f, ast.Attribute) and f.attr == "get" and len(e.args) in (1, 2):
+            out = []
+            handled = True
+            for q, base in self.ev(f.value, p, depth, no_effect=True):
+                da = single_atom(base)
+                if da is None or da[0] != "dict":
+                    handled = False
+                    break
+                for q2, vals in self.ev_many(e.args, q, depth, no_effect=no_effect):
+                    key = vals[0]
+                    hit = None
+                    decided = True
+                    for k_, v_ in zip(da[1], da[2]):
+                        if k_ == key:
+                            hit = v_
+                            break
+                        if not ((k_.const_value() is not None or str_of(k_) is not None) and (key.const_value() is not None or str_of(key) is not None)):
+                            decided = False
+                    if hit is not None:
+                        out.append((q2, hit))
+                    elif decided:
+                        out.append((q2, vals[1] if len(vals) > 1 else NONE()))
+                    else:
+                        out.append((q2, Poly.atom(("mcall", "get", tuple([base] + vals)))))
+            if handled:
+                return out
+        if fname == "dict" and isinstance(f, ast.Name) and not e.args and all(k.arg is not None for k in e.keywords):
+            return [(q, Poly.atom(("dict", tuple(S(k.arg) for k in e.keywords), tuple(vals)))) for q, vals in self.ev_many([k.value for k in e.keywords], p, depth, no_effect=no_effect)]
         if fname == "min" and isinstance(f, ast.Name):
             return [(q, vmin(vals)) for q, vals in self.ev_many(e.args, p, depth, no_effect=no_effect)]
         if fname == "int" and isinstance(f, ast.Name) and len(e.args) == 1:
@@ -1193,9 +1258,18 @@ class PyFlow:
         else:
             recv_paths = [(p, None)]
         for q, recv in recv_paths:
-            for q2, vals in self.ev_many(list(e.args) + [k.value for k in e.keywords if k.arg is not None], q, depth, no_effect=no_effect):
+            named = [k for k in e.keywords if k.arg is not None]
+            stars = [k for k in e.keywords if k.arg is None]
+            for q2, vals in self.ev_many(list(e.args) + [k.value for k in named] + [k.value for k in stars], q, depth, no_effect=no_effect):
                 pos = vals[: len(e.args)]
-                kws = {k.arg: v for k, v in zip([k for k in e.keywords if k.arg is not None], vals[len(e.args):])}
+                kws = {k.arg: v for k, v in zip(named, vals[len(e.args): len(e.args) + len(named)])}
+                for sv in vals[len(e.args) + len(named):]:
+                    da = single_atom(sv)
+                    if da is not None and da[0] == "dict" and all(str_of(k_) is not None for k_ in da[1]):
+                        for k_, v_ in zip(da[1], da[2]):
+                            kws[str_of(k_)] = v_
+                    else:
+                        kws["**"] = sv
                 name = fname or src_of(f)
                 kwa = [Poly.atom(("kw", k, v)) for k, v in sorted(kws.items())]
                 if recv is not None:
@@ -1212,6 +1286,8 @@ class PyFlow:
                         ra = single_atom(av)
                         if ra is not None and ra[0] == "ref":
                             q2.env[ra[1]] = Poly.atom(("out", name, idx, ra[3]))
+                    if name in self.noreturn or (fname is not None and src_of(f) in self.noreturn):
+                        q2.done = "exit"
                 out.append((q2, val))
         return out
 
